@@ -72,6 +72,24 @@ exh_fn!(exh_c13, "C13");
 exh_fn!(exh_c15, "C15");
 exh_fn!(exh_c19, "C19");
 
+macro_rules! simmon_fn {
+    ($name:ident, $id:expr) => {
+        fn $name(ctx: &Ctx, case: u64, acc: &mut Acc) -> Verdict {
+            crate::work::simmon::simmon_case(ctx, case, acc, Arm::only($id))
+        }
+    };
+}
+simmon_fn!(simmon_c07, "C07");
+simmon_fn!(simmon_c08, "C08");
+simmon_fn!(simmon_c09, "C09");
+simmon_fn!(simmon_c10, "C10");
+simmon_fn!(simmon_c11, "C11");
+simmon_fn!(simmon_c12, "C12");
+simmon_fn!(simmon_c13, "C13");
+simmon_fn!(simmon_c15, "C15");
+simmon_fn!(simmon_c16, "C16");
+simmon_fn!(simmon_c19, "C19");
+
 macro_rules! sweep_fn {
     ($name:ident, $id:expr) => {
         fn $name(ctx: &Ctx, case: u64, acc: &mut Acc) -> Verdict {
@@ -99,6 +117,7 @@ pub fn c07() -> Check {
             Workload { name: "chaos", f: chaos_c07, quick: 20_000, thorough: 1_000_000, flav: Flav::Checked },
             Workload { name: "driver", f: driver_c07, quick: 30_000, thorough: 1_500_000, flav: Flav::Checked },
             Workload { name: "exh", f: exh_c07, quick: 1_024, thorough: 1_024, flav: Flav::Checked },
+            Workload { name: "simmon", f: simmon_c07, quick: 1_500, thorough: 80_000, flav: Flav::Checked },
             Workload { name: "sweep", f: sweep_c07, quick: 1_100, thorough: 55_000, flav: Flav::Checked },
         ],
         exhaustive: false,
@@ -115,6 +134,7 @@ pub fn c08() -> Check {
             Workload { name: "chaos", f: chaos_c08, quick: 20_000, thorough: 1_000_000, flav: Flav::Checked },
             Workload { name: "driver", f: driver_c08, quick: 30_000, thorough: 1_500_000, flav: Flav::Checked },
             Workload { name: "exh", f: exh_c08, quick: 1_024, thorough: 1_024, flav: Flav::Checked },
+            Workload { name: "simmon", f: simmon_c08, quick: 1_500, thorough: 80_000, flav: Flav::Checked },
             Workload { name: "accrt", f: crate::checks::c08x::accrt_case, quick: 8_000, thorough: 400_000, flav: Flav::Checked },
         ],
         exhaustive: false,
@@ -131,6 +151,7 @@ pub fn c09() -> Check {
             Workload { name: "chaos", f: chaos_c09, quick: 20_000, thorough: 1_000_000, flav: Flav::Checked },
             Workload { name: "driver", f: driver_c09, quick: 30_000, thorough: 1_500_000, flav: Flav::Checked },
             Workload { name: "exh", f: exh_c09, quick: 1_024, thorough: 1_024, flav: Flav::Checked },
+            Workload { name: "simmon", f: simmon_c09, quick: 1_500, thorough: 80_000, flav: Flav::Checked },
         ],
         exhaustive: false,
     }
@@ -146,6 +167,7 @@ pub fn c10() -> Check {
             Workload { name: "chaos", f: chaos_c10, quick: 20_000, thorough: 1_000_000, flav: Flav::Checked },
             Workload { name: "driver", f: driver_c10, quick: 30_000, thorough: 1_500_000, flav: Flav::Checked },
             Workload { name: "exh", f: exh_c10, quick: 1_024, thorough: 1_024, flav: Flav::Checked },
+            Workload { name: "simmon", f: simmon_c10, quick: 1_500, thorough: 80_000, flav: Flav::Checked },
         ],
         exhaustive: false,
     }
@@ -161,6 +183,8 @@ pub fn c11() -> Check {
             Workload { name: "chaos", f: chaos_c11, quick: 20_000, thorough: 1_000_000, flav: Flav::Checked },
             Workload { name: "driver", f: driver_c11, quick: 30_000, thorough: 1_500_000, flav: Flav::Checked },
             Workload { name: "exh", f: exh_c11, quick: 1_024, thorough: 1_024, flav: Flav::Checked },
+            Workload { name: "simmon", f: simmon_c11, quick: 1_500, thorough: 80_000, flav: Flav::Checked },
+            Workload { name: "table", f: crate::checks::tables::c11_table, quick: 9_520, thorough: 9_520, flav: Flav::Checked },
         ],
         exhaustive: false,
     }
@@ -176,6 +200,8 @@ pub fn c12() -> Check {
             Workload { name: "chaos", f: chaos_c12, quick: 20_000, thorough: 1_000_000, flav: Flav::Checked },
             Workload { name: "driver", f: driver_c12, quick: 30_000, thorough: 1_500_000, flav: Flav::Checked },
             Workload { name: "exh", f: exh_c12, quick: 1_024, thorough: 1_024, flav: Flav::Checked },
+            Workload { name: "simmon", f: simmon_c12, quick: 1_500, thorough: 80_000, flav: Flav::Checked },
+            Workload { name: "table", f: crate::checks::tables::c12_table, quick: 1_080, thorough: 1_080, flav: Flav::Checked },
         ],
         exhaustive: false,
     }
@@ -191,6 +217,7 @@ pub fn c13() -> Check {
             Workload { name: "chaos", f: chaos_c13, quick: 20_000, thorough: 1_000_000, flav: Flav::Checked },
             Workload { name: "driver", f: driver_c13, quick: 30_000, thorough: 1_500_000, flav: Flav::Checked },
             Workload { name: "exh", f: exh_c13, quick: 1_024, thorough: 1_024, flav: Flav::Checked },
+            Workload { name: "simmon", f: simmon_c13, quick: 1_500, thorough: 80_000, flav: Flav::Checked },
         ],
         exhaustive: false,
     }
@@ -206,6 +233,7 @@ pub fn c15() -> Check {
             Workload { name: "chaos", f: chaos_c15, quick: 20_000, thorough: 1_000_000, flav: Flav::Checked },
             Workload { name: "driver", f: driver_c15, quick: 30_000, thorough: 1_500_000, flav: Flav::Checked },
             Workload { name: "exh", f: exh_c15, quick: 1_024, thorough: 1_024, flav: Flav::Checked },
+            Workload { name: "simmon", f: simmon_c15, quick: 1_500, thorough: 80_000, flav: Flav::Checked },
             Workload { name: "sweep", f: sweep_c15, quick: 1_100, thorough: 55_000, flav: Flav::Checked },
         ],
         exhaustive: false,
@@ -222,6 +250,7 @@ pub fn c16() -> Check {
             Workload { name: "chaos", f: chaos_c16, quick: 20_000, thorough: 1_000_000, flav: Flav::Both },
             Workload { name: "driver", f: driver_c16, quick: 30_000, thorough: 1_500_000, flav: Flav::Both },
             Workload { name: "sweep", f: sweep_c16, quick: 1_100, thorough: 55_000, flav: Flav::Both },
+            Workload { name: "simmon", f: simmon_c16, quick: 1_500, thorough: 80_000, flav: Flav::Checked },
         ],
         exhaustive: false,
     }
@@ -237,6 +266,7 @@ pub fn c19() -> Check {
             Workload { name: "chaos", f: chaos_c19, quick: 20_000, thorough: 1_000_000, flav: Flav::Checked },
             Workload { name: "driver", f: driver_c19, quick: 30_000, thorough: 1_500_000, flav: Flav::Checked },
             Workload { name: "exh", f: exh_c19, quick: 1_024, thorough: 1_024, flav: Flav::Checked },
+            Workload { name: "simmon", f: simmon_c19, quick: 1_500, thorough: 80_000, flav: Flav::Checked },
         ],
         exhaustive: false,
     }
